@@ -4,11 +4,9 @@
 #![allow(dead_code)]
 use super::*;
 
-#[kani::proof]
-#[kani::unwind(5)]
-fn c19_merge_overlapping_ranges() {
+fn merge_ranges(maxn: usize) {
     let n: usize = kani::any();
-    kani::assume(n <= 3);
+    kani::assume(n <= maxn);
     let s: [usize; 3] = kani::any();
     let e: [usize; 3] = kani::any();
     let mut input: Vec<Range<usize>> = Vec::with_capacity(3);
@@ -52,7 +50,19 @@ fn c19_merge_overlapping_ranges() {
         k += 1;
     }
     assert!(in_in == in_out);
-    kani::cover!(n == 3 && out.len() == 2, "one merge out of three ranges");
+    kani::cover!(n >= 2 && out.len() == n - 1, "one merge");
     std::mem::forget(out);
     std::mem::forget(input);
+}
+
+#[kani::proof]
+#[kani::unwind(5)]
+fn c19_merge_overlapping_ranges_n2() {
+    merge_ranges(2);
+}
+
+#[kani::proof]
+#[kani::unwind(5)]
+fn c19_merge_overlapping_ranges_n3() {
+    merge_ranges(3);
 }
